@@ -96,23 +96,26 @@ func (m *txSortedMap) Forward(threshold uint64) types.Transactions {
 	return removed
 }
 
-// try to replace a big nonce tx to a small nonce tx
-func (m *txSortedMap) TryReplace(tx *types.Transaction) bool {
+// try to replace a big nonce tx to a small nonce tx; returns the displaced tx
+func (m *txSortedMap) TryReplace(tx *types.Transaction) (*types.Transaction, bool) {
 	if m.index.Len() <= 0 {
-		return false
+		return nil, false
 	}
 
 	maxNonce := m.MaxNonce()
 	if maxNonce <= tx.Nonce() {
-		return false
+		return nil, false
+	}
+	// nothing to gain (and nothing must be lost) when the nonce is already queued
+	if m.Get(tx.Nonce()) != nil {
+		return nil, false
 	}
 
 	// get a minor nonce, delete old one and add minor.
+	old := m.Get(maxNonce)
 	m.Remove(maxNonce)
-	if err := m.Add(tx); err != nil {
-		return false
-	}
-	return true
+	m.Put(tx)
+	return old, true
 }
 
 // return max nonce in txSortedMap, call from empty m will cause a panic.
